@@ -142,7 +142,7 @@ func TestC12(t *testing.T) {
 func TestC13(t *testing.T) {
 	o := poolOpts
 	o.Bursts = false
-	o.Weights = map[string]int{"exec": 10, "xexec": 18, "xtick": 12, "tick": 6, "hb": 4, "reqbatch": 14, "relay": 10, "send": 36, "xlag": 6, "byz": 14, "deposit": 8}
+	o.Weights = map[string]int{"exec": 10, "xexec": 18, "xtick": 12, "tick": 6, "hb": 4, "reqbatch": 14, "relay": 10, "send": 36, "xlag": 6, "byz": 14, "deposit": 8, "xbyzdep": 5}
 	o.EthTimeout = []uint64{60000, 150000}
 	o.Denoms = 3
 	o.BlockTimes = true
@@ -181,10 +181,11 @@ func c01Opts() bridge.GenOpts {
 	o.NoFunds = true
 	o.BigAmounts = true
 	o.Holders = true
-	o.Weights = map[string]int{"deposit": 16, "transfer": 14, "send": 26, "xexec": 14, "cancel": 8, "send2": 3, "byz": 7, "xround": 5, "xbyzexec": 5}
+	o.Weights = map[string]int{"deposit": 16, "transfer": 14, "send": 26, "xexec": 14, "cancel": 8, "send2": 3, "byz": 7, "xround": 5, "xbyzexec": 5, "xbyzdep": 4}
 	o.MaxVals = 5
 	o.TimeoutMs = []uint64{20000, 60000, 20001, 86400000 - 1}
 	o.SharedAddr = true
+	o.ByzHeights = true
 	return o
 }
 
